@@ -316,9 +316,13 @@ def instrument_name(token, expiry, strike, kind):
     return f"{token}-{pd.Timestamp(expiry).strftime('%d%b%y').upper()}-{strike}-{'C' if kind == 'CALL' else 'P'}"
 
 
-def gen_book(rng, mark: float, tick: float, size_kind: str, n_asks: int, n_bids: int, places: int):
+def gen_book(rng, mark: float, tick: float, size_kind: str, n_asks: int, n_bids: int, places: int, dense: bool = False):
     """levels strictly ordered best-first, more than 0.5 % apart (so 'the level' of a limit price is unique within
-    the 0.1 % band), bids <= mark <= asks (equality allowed), distinct prices."""
+    the 0.1 % band), bids <= mark <= asks (equality allowed), distinct prices.  dense: neighbouring levels only 0.03 - 0.09 %
+    apart, as in the book of a deep in-the-money option quoted on a 0.0005 tick - several levels then lie within 0.1 % of a
+    limit price, and 'that level' is the one that carries the price."""
+    if dense:
+        places = max(places, 7)
 
     def size():
         r = rng.random()
@@ -336,6 +340,8 @@ def gen_book(rng, mark: float, tick: float, size_kind: str, n_asks: int, n_bids:
         for _ in range(count):
             out.append(p)
             gap = max(tick * rng.randint(1, 6), p * rng.uniform(0.006, 0.08))
+            if dense:
+                gap = max(10.0 ** -places * 3, p * rng.uniform(0.0003, 0.0009))
             p = p + gap if up else p - gap
             if p <= tick / 2:
                 break
@@ -343,6 +349,8 @@ def gen_book(rng, mark: float, tick: float, size_kind: str, n_asks: int, n_bids:
 
     a0 = mark if rng.random() < 0.1 else mark + max(tick * rng.randint(1, 4), mark * rng.uniform(0.006, 0.05))
     b0 = mark if rng.random() < 0.1 else mark - max(tick * rng.randint(1, 4), mark * rng.uniform(0.006, 0.05))
+    if dense:
+        a0, b0 = mark * (1 + rng.uniform(0.0002, 0.001)), mark * (1 - rng.uniform(0.0002, 0.001))
     asks = [[_strip(_dec(p, places)), size()] for p in ladder(a0, True, n_asks)]
     bids = [[_strip(_dec(p, places)), size()] for p in ladder(b0, False, n_bids) if p > tick / 2]
 
@@ -351,7 +359,8 @@ def gen_book(rng, mark: float, tick: float, size_kind: str, n_asks: int, n_bids:
         for p, s in levels:
             if Decimal(p) <= 0:
                 continue
-            if out and (Decimal(p) <= Decimal(out[-1][0]) * Decimal("1.005") if up else Decimal(p) >= Decimal(out[-1][0]) * Decimal("0.995")):
+            lim_up, lim_dn = (Decimal(1), Decimal(1)) if dense else (Decimal("1.005"), Decimal("0.995"))
+            if out and (Decimal(p) <= Decimal(out[-1][0]) * lim_up if up else Decimal(p) >= Decimal(out[-1][0]) * lim_dn):
                 continue
             out.append([p, s])
         return out
@@ -428,6 +437,7 @@ def gen_deribit_market(rng, name, n, prices, **opts):
     # path per instrument when the world asks for it, so that `underlying_price` of a book row and the account's token
     # price are different numbers
     basis = {nm: (1.0 + rng.uniform(-0.03, 0.03) if opts.get("basis") else 1.0) for nm in sorted(instruments)}
+    dense_set = {nm for nm in sorted(instruments) if opts.get("dense_books") and rng.random() < 0.6}
     hrs = []
     for h, t in enumerate(hours):
         rows = {}
@@ -444,7 +454,7 @@ def gen_deribit_market(rng, name, n, prices, **opts):
             mark_s = _flt(_dec(mark, mark_places))
             n_asks = rng.choice([0] + list(range(1, max_levels + 1)) * 3) if rng.random() < 0.3 else rng.randint(1, max_levels)
             n_bids = rng.choice([0] + list(range(1, max_levels + 1)) * 3) if rng.random() < 0.3 else rng.randint(1, max_levels)
-            asks, bids = gen_book(rng, float(mark_s), tick, size_kind, n_asks, n_bids, places)
+            asks, bids = gen_book(rng, float(mark_s), tick, size_kind, n_asks, n_bids, places, dense=nm in dense_set)
             state = "closed" if rng.random() < opts.get("closed_state_prob", 0.03) else "open"
             rows[nm] = {
                 "state": state, "mark": mark_s, "underlying": _dec(s, 2),
